@@ -242,18 +242,20 @@ def unit_close(kind, case):
                            B(len(cmds) == 0 and len(succ) == 1 and r is succ[0][0] and not chain and not fired),
                            clause='a close request completes only when Tor reports it gone (it already has): completes exactly once')
             elif case == 'pending':
-                ok = (len(cmds) == 0 and len(alloc) == 1 and r is alloc[0] and now is pending and len(chain) == 1
-                      and chain[0][0] is pending and chain[0][1] == 'addBoth' and isinstance(chain[0][2][0], VFunc) and not fired)
+                from pyvc import chain as CH
+                ok = len(cmds) == 0 and len(alloc) == 1 and r is alloc[0] and now is pending and not fired
                 ctx.oblige('post.repeated_request_sends_nothing_and_joins_the_pending_wait', p, B(ok),
                            clause='repeated requests share the outcome')
                 if ok:
+                    # when the pending wait fires (with whatever outcome), what is registered on it delivers that outcome
                     res = VOpaque('outcome', 77)
-                    for q, rr in ex.call(p, chain[0][2][0], [res], {}):
+                    for q, rr, bad in CH.run(ex, p, CH.entries_of(chain, pending), res, models=ctx.models):
                         f2 = ctx.models.glog(q, 'fired')
                         ctx.oblige('post.shared_outcome_delivered_exactly_once_and_passed_on', q,
-                                   B(not isinstance(rr, Raise) and len(f2) == 1 and f2[0][0] is r and f2[0][2] is res and rr is res),
+                                   B(not bad and len(f2) == 1 and f2[0][0] is r and f2[0][2] is res and rr is res),
                                    clause='each such wait completes exactly once, and repeated requests share the outcome')
             else:
+                from pyvc import chain as CH
                 okc = (len(cmds) == 1 and cmds[0][0] == ('close_circuit' if kind == 'circuit' else 'close_stream') and not cmds[0][2])
                 if okc and kind == 'circuit':
                     a = cmds[0][1]
@@ -267,28 +269,27 @@ def unit_close(kind, case):
                 if not (okc and fresh_wait):
                     continue
                 cmdd = cmds[0][3]
-                mine = [c for c in chain if c[0] is cmdd]
-                okchain = len(mine) == 1 and len(chain) == 1 and mine[0][1] in ('addCallback', 'addCallbacks') and isinstance(mine[0][2][0], VFunc)
                 if kind == 'circuit':
-                    ctx.oblige('post.request_completes_through_the_command_then_the_wait', p, B(okchain and r is cmdd),
+                    ctx.oblige('post.request_completes_through_the_command_then_the_wait', p, B(r is cmdd),
                                clause='completes only when Tor reports it gone, not when the close command is acknowledged')
                 else:
-                    ctx.oblige('post.request_is_the_wait_itself', p, B(okchain and r is now),
+                    ctx.oblige('post.request_is_the_wait_itself', p, B(r is now),
                                clause='completes only when Tor reports it gone, not when the close command is acknowledged')
-                if not okchain:
-                    continue
-                for q, rr in ex.call(p, mine[0][2][0], [VOpaque('ack', 5)], {}):
-                    ctx.oblige('post.acknowledgement_hands_over_to_the_wait', q, B(rr is q.heap[('f', o, '_closing_deferred')] and rr is now),
+                # the acknowledgement of the command hands over to the wait (the chain on the command's Deferred is run)
+                entries = CH.entries_of(chain, cmdd)
+                for q, rr, bad in CH.run(ex, p, entries, VOpaque('ack', 5), models=ctx.models):
+                    ctx.oblige('post.acknowledgement_hands_over_to_the_wait', q, B(not bad and rr is q.heap[('f', o, '_closing_deferred')] and rr is now
+                                                                                 and not ctx.models.glog(q, 'fired')),
                                clause='not when the close command is acknowledged')
-                if kind == 'circuit' and mine[0][1] == 'addCallbacks' and len(mine[0][2]) >= 2:
+                if kind == 'circuit':
                     fail = VOpaque('failure', 6)
                     p2 = p.fork()
                     st1 = z3.String('state_at_refusal')
                     p2.heap[('f', o, 'state')] = VStr(st1)
                     gone1 = z3.Or(st1 == mk_str('CLOSED'), st1 == mk_str('FAILED'))
-                    for q, rr in ex.call(p2, mine[0][2][1], [fail], {}):
+                    for q, rr, bad in CH.run(ex, p2, entries, fail, failed=True, models=ctx.models, is_failure=lambda v: v is fail):
                         ctx.oblige('post.refused_command_fails_the_request_unless_the_circuit_is_gone', q,
-                                   z3.If(gone1, B(rr is obj), B(rr is fail)))
+                                   z3.If(gone1, B(rr is obj and not bad), B(rr is fail and bad)))
     return run
 
 
